@@ -176,3 +176,6 @@ macro_rules! hl8 {
 }
 
 include!("c01_names.rs");
+
+// a concrete playback test printed by Kani for a failing harness of this module is replayed from here
+include!(concat!(env!("VERIF_KANI_GEN"), "/playback_c01.rs"));
